@@ -111,10 +111,13 @@ pub async fn run(ctx: &Ctx) {
     let mut dcs: [Option<Arc<DataChannel>>; 2] = [a.dc.clone(), b.dc.clone()];
     let counts: [Arc<DcCount>; 2] = [Arc::new(DcCount::default()), Arc::new(DcCount::default())];
     let mut helper_tasks = Vec::new();
+    // set when the application's pending recv() on its data channel returned None (end of the event stream)
+    let recv_done: [Arc<AtomicU32>; 2] = [Arc::new(AtomicU32::new(0)), Arc::new(AtomicU32::new(0))];
     for side in 0..2 {
         if let Some(dc) = dcs[side].clone() {
             let c = counts[side].clone();
             let sh = ctx.sh.clone();
+            let rd = recv_done[side].clone();
             helper_tasks.push(tokio::spawn(vh::wrap_task(async move {
                 loop {
                     match dc.recv().await {
@@ -129,7 +132,10 @@ pub async fn run(ctx: &Ctx) {
                         Some(DataChannelEvent::Message(_)) => {
                             c.msgs.fetch_add(1, Ordering::SeqCst);
                         }
-                        None => break,
+                        None => {
+                            rd.store(1, Ordering::SeqCst);
+                            break;
+                        }
                     }
                 }
             })));
@@ -255,6 +261,7 @@ pub async fn run(ctx: &Ctx) {
     let mut not_judged = [false; 2];
     let mut had_remote = [false; 2];
     let mut blocked_tasks = Vec::new();
+    let mut late: Option<(tokio::task::JoinHandle<()>, Arc<AtomicU32>, usize, Arc<DataChannel>)> = None;
     let t_start = ctx.now_ms();
     let kills: Vec<&Op> = plan.ops.iter().filter(|o| o.kind == "kill").collect();
     let mut peers_dropped_by_event = false;
@@ -279,6 +286,23 @@ pub async fn run(ctx: &Ctx) {
         ctx.stat(&format!("event.{}", ev_name(kind)), 1);
         ctx.stat(&format!("progress_at_event.{prog}"), 1);
         let other = 1 - side;
+        if plan.knob("late_dc", 0) == 1 && k.has_dc() && matches!(kind, EV_CLOSE | EV_CLOSE_TWICE) && late.is_none() {
+            // the application opens one more channel and closes the connection right away: the channel never gets
+            // past Connecting, and the recv() the application leaves pending on it must still return
+            if let Ok(dc) = pcs[side].create_data_channel("late", None) {
+                let done = Arc::new(AtomicU32::new(0));
+                let d2 = done.clone();
+                let dc2 = dc.clone();
+                let h = tokio::spawn(vh::wrap_task(async move {
+                    while dc2.recv().await.is_some() {}
+                    d2.store(1, Ordering::SeqCst);
+                }));
+                if plan.knob("late_dc_yield", 0) == 1 {
+                    tokio::task::yield_now().await;
+                }
+                late = Some((h, done, side, dc));
+            }
+        }
         match kind {
             EV_CLOSE => {
                 pcs[side].close();
@@ -347,9 +371,16 @@ pub async fn run(ctx: &Ctx) {
                 }
             }
             EV_ICE_STOP => {
+                // stopping an ICE transport that was never started takes nothing away: the later negotiation starts it
+                // and the connection comes up normally, so only a stop of a started transport counts as a lost layer
+                let started = pcs[side].ice_transport().state() != rustrtc::transports::ice::IceTransportState::New;
                 pcs[side].ice_transport().stop();
-                lower_loss[side] = true;
-                lower_loss[other] = true;
+                if started {
+                    lower_loss[side] = true;
+                    lower_loss[other] = true;
+                } else {
+                    ctx.stat("escape.ice_stop_before_start", 1);
+                }
             }
             EV_PARTITION => {
                 ctx.net.set_blackhole(true);
@@ -437,6 +468,20 @@ pub async fn run(ctx: &Ctx) {
         }
     }
     tokio::time::sleep(Duration::from_millis(bound_ms)).await;
+    // a recv() the application left pending on a data channel of a connection it closed must have returned by now
+    // (whatever state the channel had reached: Connecting, Open or Closing)
+    for s in 0..2 {
+        if app_closed[s] && !dropped[s] && dcs[s].is_some() && recv_done[s].load(Ordering::SeqCst) == 0 {
+            ctx.violate("C17.prompt", format!("recv() pending on the data channel of {} did not return within {} ms after the application closed the connection (channel state {}, Close events seen {})", names[s], bound_ms + 1000, dcs[s].as_ref().unwrap().state.load(Ordering::SeqCst), counts[s].close.load(Ordering::SeqCst)));
+        }
+    }
+    if let Some((h, done, side, dc)) = late.take() {
+        ctx.stat("probe.late_channel_before_close", 1);
+        if done.load(Ordering::SeqCst) == 0 {
+            ctx.violate("C17.prompt", format!("recv() pending on a data channel that {} created just before close() did not return within {} ms after close() (channel state {})", names[side], bound_ms + 1000, dc.state.load(Ordering::SeqCst)));
+        }
+        h.abort();
+    }
     for v in prompt_violation.lock().unwrap().iter() {
         ctx.violate("C17.prompt", v.clone());
     }
@@ -595,6 +640,10 @@ pub fn generate(prop: &str, seed: u64, idx: u64, tier: Tier) -> Plan {
     p.knobs.insert("offerer".into(), r.below(2) as i64);
     if idx >= core || kind == EV_BLOCKED_SENDER_CLOSE {
         p.knobs.insert("ndc".into(), *r.pick(&[1i64, 2, 3]));
+        if r.chance(30) {
+            p.knobs.insert("late_dc".into(), 1);
+            p.knobs.insert("late_dc_yield".into(), r.below(2) as i64);
+        }
     }
     p.knobs.insert("ice_connection_timeout_ms".into(), 15_000);
     p.knobs.insert("ice_disconnect_threshold_ms".into(), 4_000);
